@@ -1,5 +1,6 @@
 '''C03 Block manager transparency and structural coherence of Frame.'''
 from sfa.report import Ctx
+from sfa.rules import resolve
 from sfa.rules import flowmisc
 from sfa.rules import axisrules
 from sfa.rules import atomic
@@ -14,7 +15,7 @@ LEVEL_TEXT = (
     'counter together, unconditionally, with index entries written before the counter advances, after the row-count check and the '
     'zero-width skip; TypeBlocks.append moves _shape/_index/_dtypes/_blocks in lock-step; (c) every normal exit of Frame.__init__ / '
     'Series.__init__ has passed the final size checks (must-pass-through over all paths, deferred constructors included); (d) every loop that walks the blocks with a running column offset advances the offset on every path to the next iteration (`continue` included); (e) a per-block cast guarded by a test on the block\'s dimensionality has a sibling cast on the other layout (layout transparency of dtype resolution). '
-    'Axis iteration: per path, the Frame axis iterators and to_pairs key axis-1 vectors by the index and label them by the columns (axis 0 the other way round), from axis_values(axis) in one pass. Slice cardinality: every `<slice>.indices(n)` result in core is consumed whole or any stop - start span is computed with the step (single-row detection, assigned widths and fill limits count stepped slices correctly). Reverse option: every path of TypeBlocks.axis_values that yields has consulted `reverse` (reversed() of a hierarchy, reverse column iteration of a Frame). Not decided: layout transparency of results (equal answers for every composition of the columns into blocks) — a statement '
+    'Axis iteration: per path, the Frame axis iterators and to_pairs key axis-1 vectors by the index and label them by the columns (axis 0 the other way round), from axis_values(axis) in one pass. Slice cardinality: every `<slice>.indices(n)` result in core is consumed whole or any stop - start span is computed with the step (single-row detection, assigned widths and fill limits count stepped slices correctly). Reverse option: every path of TypeBlocks.axis_values that yields has consulted `reverse` (reversed() of a hierarchy, reverse column iteration of a Frame). Row dtype cache: TypeBlocks.append widens the cached row dtype on any dtype mismatch, so whole-row reads agree with per-column reads (F3). Not decided: layout transparency of results (equal answers for every composition of the columns into blocks) — a statement '
     'about array arithmetic at block boundaries; a per-subscript ndim-guard rule was prototyped at design time and rejected as a false '
     'alarm in waiting.')
 
@@ -37,3 +38,4 @@ def run(ctx: Ctx) -> None:
     own.c_who_may_grow(ctx)
     axisrules.axis_iteration(ctx)
     flowmisc.option_consulted(ctx)
+    resolve.f3_resolver_shape(ctx)
